@@ -79,7 +79,9 @@ func genValue(r *rand.Rand, depth int) any {
 // the last three are NOT reserved: their prefix merely ends in the letters of a reserved domain
 // (no dot boundary), or they have no prefix at all
 var labelKeys = []string{"team", "env", "example.org/tier", "acme.io/owner", "cluster.x-k8s.io/cluster-name", "notkubernetes.io/tier", "myk8s.io"}
-var reservedKeys = []string{"kubernetes.io/role", "app.kubernetes.io/name", "k8s.io/thing", "foo.k8s.io/bar", "kubectl.kubernetes.io/last-applied-configuration"}
+// the last four sit two or more DNS labels below a reserved domain (real Kubernetes keys)
+var reservedKeys = []string{"kubernetes.io/role", "app.kubernetes.io/name", "k8s.io/thing", "foo.k8s.io/bar", "kubectl.kubernetes.io/last-applied-configuration",
+	"failure-domain.beta.kubernetes.io/zone", "volume.beta.kubernetes.io/storage-class", "rbac.authorization.k8s.io/aggregate-to-admin", "node.alpha.kubernetes.io/ttl"}
 
 func isReserved(k string) bool {
 	d, _, prefixed := strings.Cut(k, "/")
